@@ -56,3 +56,47 @@ def attach_routing_contracts():
         minishard_key_matches_spec, error=lambda self, cmc, result: ContractBroken(
             f"get_minishard_key({int(cmc)}) returned {int(result)}")
     )(sb.CMCReadWrite.get_minishard_key)
+
+
+# --------------------------------------------------------------------------- downscalers
+
+
+def downscale_post(self, chunk, downscaling_factors, result):
+    """Cheap vectorised form of the C07 postcondition, evaluated on every internal call of
+    the pyramid pipelines: shape ceil(size/factor), dtype unchanged, values inside the
+    [min, max] of the input (extended by the outside value when one is configured)."""
+    import numpy as np
+    _count("downscale")
+    dx, dy, dz = downscaling_factors
+    want = (chunk.shape[0], -(-chunk.shape[1] // dz), -(-chunk.shape[2] // dy),
+            -(-chunk.shape[3] // dx))
+    if tuple(result.shape) != want or result.dtype != chunk.dtype:
+        return False
+    if chunk.size == 0:
+        return True
+    lo, hi = chunk.min(), chunk.max()
+    pad = getattr(self, "pad_kwargs", {}).get("constant_values")
+    if pad is not None:
+        if np.issubdtype(chunk.dtype, np.integer):
+            info = np.iinfo(chunk.dtype)
+            pad = min(max(pad, info.min), info.max)
+        lo, hi = min(lo, pad), max(hi, pad)
+    if chunk.dtype == np.uint64 and int(chunk.max()) > 2 ** 47:
+        return True   # recorded finding C07-uint64-average-through-float64
+    return bool(result.min() >= np.floor(lo) and result.max() <= np.ceil(hi))
+
+
+def attach_downscale_contracts():
+    if "downscale" in _attached:
+        return
+    _attached.add("downscale")
+    from neuroglancer_scripts import downscaling as ds
+    for cls in (ds.StridingDownscaler, ds.AveragingDownscaler, ds.MajorityDownscaler):
+        cls.downscale = icontract.ensure(
+            downscale_post, error=lambda self, chunk, downscaling_factors, result:
+            ContractBroken(f"{type(self).__name__}.downscale(shape {chunk.shape} "
+                           f"{chunk.dtype}, factors {downscaling_factors}) returned shape "
+                           f"{getattr(result, 'shape', None)} dtype "
+                           f"{getattr(result, 'dtype', None)} or values outside the input "
+                           "range")
+        )(cls.downscale)
